@@ -532,6 +532,8 @@ def run(prop, tier, seed):
             import repotrace
             for d_ in repotrace.phase(wd, info, 4000 if tier == "quick" else 40000):
                 drift.append(dict(note=d_))
+            for d_ in repotrace.binary_phase(wd, info, seed, tier):
+                drift.append(dict(note=d_))
             info["detail"] = dict(detailed_traces=len(dindex), detailed_events=len(dlines), accepted=dok, first_unexplained=detail_drift, binding_selftest=selftest)
         rc = verdict.finish()
         gated = [s for s in scenarios if s["ops"][0].get("gate")]
@@ -542,7 +544,7 @@ def run(prop, tier, seed):
                    model_runs=info["model_runs"], mutants=info["mutants"], mutants_expected=len(MUTANTS[prop]), mutants_killed=len(info["mutants"]),
                    schedules_imposed=len(gated), free_running_groups=len(scenarios) - len(gated), free_running_groups_against_the_dirk_binary=bin_groups,
                    schedules_with_deviation=ndev, blocked_observations=nblocked, deadlocks_observed=len(deadlocks),
-                   drift=drift[:10], drift_count=len(drift), exhaustive=False, layer_d_trace_validation=info.get("detail"), repo_tests_as_traces=info.get("repo_tests_as_traces"),
+                   drift=drift[:10], drift_count=len(drift), exhaustive=False, layer_d_trace_validation=info.get("detail"), repo_tests_as_traces=info.get("repo_tests_as_traces"), real_binary_traces=info.get("real_binary_traces"),
                    checker_cmd="tlc MCSigner / SignerSim / AtomicTrace (see lib/concfamily.py)")
         write_evidence(prop, tier, seed, "model_checking", cov, time.time() - t0, violations=len(verdict.violations),
                        assumptions=["gates at locker calls and Store hooks are the only scheduling points that matter for the slashing records",
